@@ -53,3 +53,93 @@ Proof.
       * clear -Hcs. induction Hcs as [|v t vs ts [V _] _ IH]; cbn [map]; constructor; [exact V|exact IH].
 Qed.
 Print Assumptions grid2_two_sided.
+
+(* ---------- ... and with date-times among the 2.0 metadata values ---------- *)
+From HS Require Import Proofs.ZincNestP Proofs.ZincRawP Proofs.ZincRaw2P.
+
+Definition mq2_ok (q : q4) : Prop :=
+  colname (k4 q) /\ ((w4 q = VMarker /\ r4 q = VMarker) \/ (w4 q = r4 q /\ val2 (w4 q) (t4 q)) \/ dtt (w4 q) (r4 q) (t4 q)).
+Definition cq2_ok (c : cq) : Prop := colname (fst c) /\ Forall mq2_ok (snd c) /\ NoDup (map k4 (snd c)).
+
+Lemma mq2_meq q : mq2_ok q -> meq q.
+Proof.
+  destruct q as [[[k w] r] t]. unfold mq2_ok, meq, pw, pr, k4, w4, r4, t4. cbn [fst snd].
+  intros [_ [[Ew Er]|[[E _]|[y [m [d [h [mi [s [us [off [zn [sg [hh [mm [_ [_ [_ [Ew [Er _]]]]]]]]]]]]]]]]]]]]; subst; reflexivity.
+Qed.
+Lemma mq2_dump f q : mq2_ok q -> mitem_dump2 (S f) (pw q).
+Proof.
+  destruct q as [[[k w] r] t]. unfold mq2_ok, pw, k4, w4, r4, t4. cbn [fst snd].
+  intros [_ [[Ew _]|[[_ V]|[y [m [d [h [mi [s [us [off [zn [sg [hh [mm [_ [_ [_ [Ew [_ Et]]]]]]]]]]]]]]]]]]]].
+  - left. exact Ew.
+  - right. exact (proj1 (proj2 V) f).
+  - right. subst w t. reflexivity.
+Qed.
+Lemma mq2_read g q : mq2_ok q -> mitem_ok2 g (pr q).
+Proof.
+  destruct q as [[[k w] r] t]. unfold mq2_ok, pr, k4, w4, r4, t4. cbn [fst snd].
+  intros [Hk [[_ Er]|[[E V]|[y [m [d [h [mi [s [us [off [zn [sg [hh [mm [Eo [Hok [Hz [Ew [Er Et]]]]]]]]]]]]]]]]]]]]; (split; [exact Hk|]).
+  - left. exact Er.
+  - right. subst r. exact (proj2 (proj2 V) g).
+  - right. subst w r t. intros rest Hd.
+    apply (datetime_written_read 0 g false y m d h mi s us off zn sg hh mm _ rest Eo Hok Hz Hd). reflexivity.
+Qed.
+Lemma mq2_free l : Forall mq2_ok l -> mfree (map pr l).
+Proof.
+  intro H. unfold mfree. induction H as [|q l Hq _ IH]; cbn [map]; constructor; [|exact IH].
+  destruct q as [[[k w] r] t]. unfold mq2_ok, pr, k4, w4, r4, t4 in *. cbn [fst snd pkv] in *.
+  destruct Hq as [_ [[_ Er]|[[E V]|[y [m [d [h [mi [s [us [off [zn [sg [hh [mm [_ [_ [_ [_ [Er _]]]]]]]]]]]]]]]]]]]].
+  - subst r. reflexivity.
+  - subst r. exact (proj1 V).
+  - subst r. reflexivity.
+Qed.
+
+Lemma meta_text2_eq mq cs rts : Forall meq mq -> Forall (fun c : cq => Forall meq (snd c)) cs ->
+  meta_text2 (map pw mq) (map colw cs) rts = meta_text2 (map pr mq) (map colr cs) rts.
+Proof. intros Hm Hc. unfold meta_text2, htext2. rewrite (mpart_eq mq Hm), (ctext_eq cs Hc). reflexivity. Qed.
+
+Theorem grid2_two_sided_meta (mq : list q4) (cs : list cq) (rows : list (list (hval * hval))) rts :
+  Forall mq2_ok mq -> NoDup (map k4 mq) -> ~ In VERK (map k4 mq) ->
+  cs <> [] -> Forall cq2_ok cs -> NoDup (map fst cs) ->
+  Forall2 (fun cells ts => length cells = length (map fst cs) /\ Forall2 cellwr20 cells ts) rows rts ->
+  (forall f, zdump_grid (S (S f)) V20 (map pkv (map pw mq)) (map (fun c => (fst c, map pkv (snd c))) (map colw cs))
+                        (map (fun cells => combine (map fst cs) (map fst cells)) rows) = Ok (meta_text2 (map pw mq) (map colw cs) rts)) /\
+  zparse_grid (meta_text2 (map pw mq) (map colw cs) rts) = Ok (meta_grid2 (map pr mq) (map colr cs) (map (map snd) rows)).
+Proof.
+  intros Hm Hmn Hmv Hne Hc Hcn Hrows.
+  assert (NW : map fst (map colw cs) = map fst cs) by (rewrite map_map; reflexivity).
+  assert (NR : map fst (map colr cs) = map fst cs) by (rewrite map_map; reflexivity).
+  assert (TE : meta_text2 (map pw mq) (map colw cs) rts = meta_text2 (map pr mq) (map colr cs) rts).
+  { apply meta_text2_eq.
+    - eapply Forall_impl; [|exact Hm]. intros q Hq. exact (mq2_meq q Hq).
+    - eapply Forall_impl; [|exact Hc]. intros c [_ [B _]]. eapply Forall_impl; [|exact B]. intros q Hq. exact (mq2_meq q Hq). }
+  split.
+  - intro f.
+    replace (map (fun cells : list (hval * hval) => combine (map fst cs) (map fst cells)) rows)
+      with (map (fun cells => combine (map fst (map colw cs)) cells) (map (map fst) rows)) by (rewrite NW, map_map; reflexivity).
+    apply grid_meta_dumps2.
+    + clear -Hm. induction Hm as [|q l Hq _ IH]; cbn [map]; constructor; [apply mq2_dump; exact Hq|exact IH].
+    + destruct cs; [contradiction|discriminate].
+    + clear -Hc. induction Hc as [|c l [_ [Hq _]] _ IH]; cbn [map]; constructor; [|exact IH].
+      unfold col_dump_ok2, colw. cbn [snd]. clear -Hq. induction Hq as [|q l0 Hq0 _ IH0]; cbn [map]; constructor; [apply mq2_dump; exact Hq0|exact IH0].
+    + rewrite NW. exact Hcn.
+    + rewrite NW. clear -Hrows. induction Hrows as [|cells ts rows rts [Hl Hcs] _ IH]; cbn [map]; constructor; [|exact IH]. split; [rewrite map_length; exact Hl|].
+      clear -Hcs. induction Hcs as [|v t vs ts [_ [D _]] _ IH]; cbn [map]; constructor; [apply D|exact IH].
+  - rewrite TE. unfold zparse_grid.
+    assert (SV : sniff_version (meta_text2 (map pr mq) (map colr cs) rts) = Some V20) by reflexivity. rewrite SV.
+    assert (P3 : pre3_of V20 = Ok true) by (vm_compute; reflexivity). rewrite P3. cbn [negb].
+    unfold meta_text2 at 2.
+    rewrite (grid_meta_reads2 (length (meta_text2 (map pr mq) (map colr cs) rts)) (map pr mq) (map colr cs) (map (map snd) rows) rts); [reflexivity| | | | | | |].
+    + clear -Hm. induction Hm as [|q l Hq _ IH]; cbn [map]; constructor; [apply mq2_read; exact Hq|exact IH].
+    + rewrite mkeys_pr. exact Hmn.
+    + rewrite mkeys_pr. exact Hmv.
+    + split; [destruct cs; [contradiction|discriminate]|]. split; [|split; [rewrite NR; exact Hcn|]].
+      * clear -Hc. induction Hc as [|c l [Hk [Hq _]] _ IH]; cbn [map]; constructor; [|exact IH].
+        split; [exact Hk|]. unfold colr. cbn [snd]. clear -Hq. induction Hq as [|q l0 Hq0 _ IH0]; cbn [map]; constructor; [apply mq2_read; exact Hq0|exact IH0].
+      * clear -Hc. induction Hc as [|c l [_ [_ Hnd]] _ IH]; cbn [map]; constructor; [|exact IH]. unfold colr. cbn [snd]. rewrite mkeys_pr. exact Hnd.
+    + apply mq2_free. exact Hm.
+    + clear -Hc. induction Hc as [|c l [_ [Hq _]] _ IH]; cbn [map]; constructor; [|exact IH]. unfold colr. cbn [snd]. apply mq2_free. exact Hq.
+    + rewrite NR. clear -Hrows. induction Hrows as [|cells ts rows rts [Hl Hcs] _ IH]; cbn [map]; constructor; [|exact IH]. split; [rewrite map_length; exact Hl|]. split.
+      * clear -Hcs. induction Hcs as [|v t vs ts [_ [_ R]] _ IH]; cbn [map]; constructor; [apply R|exact IH].
+      * clear -Hcs. induction Hcs as [|v t vs ts [V _] _ IH]; cbn [map]; constructor; [exact V|exact IH].
+Qed.
+Print Assumptions grid2_two_sided_meta.
